@@ -1101,7 +1101,7 @@ def probe_history(ctx):
              lambda r: numqi.qec.VarQEC(r['encode'], K, numqi.qec.make_error_list(c['n'], 2))),
             ('result["encode"].X(0)', lambda r: r['encode'].X(0)),
             ('result["encode"].append_gate(result["encode"].gate_index_list[0][0], (1,))', lambda r: r['encode'].append_gate(r['encode'].gate_index_list[0][0], (1,))),
-            ('result["stabilizer"][-1].extend_circuit(result["stabilizer"][0])', lambda r: r['stabilizer'][-1].extend_circuit(r['stabilizer'][0])),
+            ('result["stabilizer"][-1].extend_circuit(result["encode"])', lambda r: r['stabilizer'][-1].extend_circuit(r['encode'])),
             ('result["stabilizer"].pop()', lambda r: r['stabilizer'].pop()),
             ('result["stabilizer"].append(result["encode"])', lambda r: r['stabilizer'].append(r['encode'])),
             ('result["encode"].gate_index_list.pop()', lambda r: r['encode'].gate_index_list.pop()),
